@@ -334,7 +334,7 @@ def case_taint_rule(ctx, rule: str, records):
             raws = _raw_overhangs(t)
             r.ob(rule, "%s#%s:%s" % (where, kind, repr(t)), at_accessor or not raws,
                  "the overhang carried to the next lookup of the walk is not case-normalised: %r" % (t,), where)
-    r.floor(rule, 5)
+    r.floor(rule, 4)
 
 
 def read_set_rule(ctx, rule: str, records):
